@@ -290,13 +290,13 @@ def coq_input(inp):
     return "(InDatetime %s %s)" % (coq_dt(inp["dt"]), coq_off(inp.get("off")))
 
 
-def model_term(case, ym):
+def model_term(case, ym, nm="NaiveKept"):
     p, c = COQ_P[case["p"]], COQ_C[case["c"]]
     if case["k"] == "fmt":
         return "show_text (format_dt %s %s %s %s %s)" % (ym, p, c, coq_dt(case["in"]["dt"]), coq_off(case["in"].get("off")))
     if case["k"] == "parse":
-        return "show_parsed %s %s %s %s" % (ym, p, c, coq_input(case["in"]))
-    return "show_text (write %s %s %s %s)" % (ym, p, c, coq_input(case["in"]))
+        return "show_parsed %s %s %s %s %s" % (nm, ym, p, c, coq_input(case["in"]))
+    return "show_text (write %s %s %s %s %s)" % (nm, ym, p, c, coq_input(case["in"]))
 
 
 # --------------------------------------------------------------------------
@@ -440,16 +440,30 @@ def describe(case, text):
 WITNESS = {"k": "fmt", "p": "any", "c": "exact", "in": {"dt": [999, 1, 2, 3, 4, 5, 0], "off": None, "tz": "std"}}
 
 
+NAIVE_PROBE = {"k": "parse", "p": "any", "c": "exact", "in": {"dt": [2020, 1, 2, 3, 4, 5, 6], "off": None, "tz": "std"}}
+
+
 def select_variant(run):
-    """Run the witness of fmt_canonical_refuted on the implementation."""
-    res = common.run_impl("c15_impl", [WITNESS], procs=1)[0]
+    """Run the witness of fmt_canonical_refuted on the implementation (year mode), and a naive datetime
+    through parse_into_datetime (kept naive, or localised to UTC: both satisfy the property)."""
+    res, res2 = common.run_impl("c15_impl", [WITNESS, NAIVE_PROBE], procs=1)
     o, _ = split_result(res)
     if o == "OK 999-01-02T03:04:05Z":
-        return "Unpadded"
-    if o == "OK 0999-01-02T03:04:05Z":
-        return "Pad4"
-    run.broken.append(Broken("correspondence", "year-mode witness matches neither variant", {"observed": o}))
-    return "Pad4"
+        ym = "Unpadded"
+    elif o == "OK 0999-01-02T03:04:05Z":
+        ym = "Pad4"
+    else:
+        run.broken.append(Broken("correspondence", "year-mode witness matches neither variant", {"observed": o}))
+        ym = "Pad4"
+    parts = split_result(res2)[0].split(" ")
+    if len(parts) >= 3 and parts[0] == "OK" and parts[2] == "naive":
+        nm = "NaiveKept"
+    elif len(parts) >= 3 and parts[0] == "OK" and parts[2] == "0":
+        nm = "NaiveUtc"
+    else:
+        run.broken.append(Broken("correspondence", "naive-datetime probe matches neither variant", {"observed": res2}))
+        nm = "NaiveUtc"
+    return ym, nm
 
 
 def check(run):
@@ -464,8 +478,8 @@ def check(run):
     with common.Lock():
         res = common.build_props("Props/C15.v")
         run.add_build(res, "make -C coq Props/C15.vo (coqc 8.16.1, full .vo) + Print Assumptions per theorem")
-    ym = select_variant(run)
-    run.coverage["variant_selected"] = {"year_mode": ym}
+    ym, nm = select_variant(run)
+    run.coverage["variant_selected"] = {"year_mode": ym, "naive_mode": nm}
     cases = gen_cases(run, scale)
     impl = common.run_impl("c15_impl", cases)
     hist = {}
@@ -481,13 +495,13 @@ def check(run):
     for i in (0, len(cases) // 3, len(cases) // 2, len(cases) - 400, len(cases) - 1):
         run.sample({"case": cases[i], "impl": impl[i]})
     try:
-        model = common.coq_eval_lines("c15m", HEADER, [model_term(c, ym) for c in cases], shard=450)
+        model = common.coq_eval_lines("c15m", HEADER, [model_term(c, ym, nm) for c in cases], shard=450)
         dis = [(c, i, m) for c, i, m in zip(cases, impl, model) if split_result(i)[0] != m]
         run.coverage["correspondence_cases"] = len(cases)
         run.coverage["correspondence_disagreements"] = len(dis)
         if dis:
             run.coverage["correspondence_first_disagreements"] = [{"case": c, "impl": i, "model": m} for c, i, m in dis[:5]]
-            run.broken.append(Broken("correspondence", "Model/Timestamp.v (%s) vs stix2.utils / TimestampProperty" % ym,
+            run.broken.append(Broken("correspondence", "Model/Timestamp.v (%s, %s) vs stix2.utils / TimestampProperty" % (ym, nm),
                                      {"first": [{"case": c, "impl": i, "model": m} for c, i, m in dis[:8]]}))
     except RuntimeError as e:
         run.broken.append(Broken("correspondence", "model evaluation failed", {"error": str(e)[-1500:]}))
